@@ -16,6 +16,11 @@ def encodeTag (tg : Option Tag) (b : Builder) : Outcome Builder :=
   | some t => b.writeUint t.val t.len
   | none => .err "invalid tag"
 
+/-- the value side of C05's codec parameter on the encoder side: what `Marshal(leaf, v)` appends -/
+def valueCodecEnc (enc : Val → Outcome Builder) : Hashmap.Codec Val where
+  enc v := (enc v).bind fun b => .ok (b.bits, b.refs)
+  dec _ _ := .err "encoder only"
+
 mutual
 
 /-- `encode(c, tag, o, encoder)` for a struct field carrying field tag `ft` -/
@@ -123,9 +128,20 @@ def encode (env : Env) : Nat → Ty → Val → Builder → Outcome Builder
     | .vmStack e => do
       let b ← b.writeUint (Prim.valLen v) 24
       encodeStack env fuel e v b
-    | .dictE _ => (match v with
-      | .nil => b.writeBit false           -- hme_empty$0
-      | _ => .err "unmodelled")
+    | .dictE k t =>
+      -- HashmapE.MarshalTLB: Maybe ^(Hashmap n X); the tree itself is C05's `Hashmap.marshal`
+      (match dictParts v, keyWidth k with
+      | some (ks, vs), some n =>
+        if ks.isEmpty then b.writeBit false           -- hme_empty$0
+        else do
+          let b ← b.writeBit true
+          let kbits ← mapMOutcome (fun kv => (encode env fuel k kv Builder.empty).bind fun kb => .ok kb.bits) ks
+          match zipKV kbits vs with
+          | none => .err "hashmap has more keys than values"
+          | some kvs => do
+            let root ← Hashmap.marshal (valueCodecEnc (fun x => encode env fuel t x Builder.empty)) n kvs
+            b.addRef root
+      | _, _ => .err "bad value")
     | .encErr _ => .err "marshaling not implemented"
     | .opaque _ => .err "unmodelled"
 
